@@ -19,6 +19,7 @@ import warnings
 
 import numpy as np
 
+from . import linecov
 from .ctx import Ctx, CaseAbort, CaseTimeout, StepBudgetExceeded, mouette_site
 
 
@@ -33,9 +34,10 @@ def main():
     logging.disable(logging.CRITICAL)
     with open(shard_path) as f:
         shard = json.load(f)
+    repo = os.environ.get("MOUETTE_REPO", "/repo")
+    cov_on = os.environ.get("VERIF_LINECOV", "1") != "0" and linecov.start(repo)
     mod = importlib.import_module("mv.props." + prop.lower())
     import mouette  # noqa
-    repo = os.environ.get("MOUETTE_REPO", "/repo")
     mfile = os.path.realpath(mouette.__file__)
     if not mfile.startswith(os.path.realpath(repo) + os.sep):
         print("worker: mouette imported from %s, not from %s" % (mfile, repo), file=sys.stderr)
@@ -93,6 +95,8 @@ def main():
                "counters": ctx.counters, "classes": ctx.classes, "notes": ctx.notes,
                "violations": ctx.violations, "samples": ctx.samples, "nontrivial": ctx.nontrivial_keys,
                "info": ctx.info}
+        if cov_on:
+            rec["cov"] = linecov.drain()
         out.write(json.dumps(rec) + "\n")
         out.flush()
     out.write(json.dumps({"t": "done"}) + "\n")
